@@ -12,7 +12,7 @@ import (
 func init() {
 	register(&propInfo{
 		id: "C06", fn: checkC06, multiConfig: true,
-		explanation: "All clauses are facts about the shape of connState.handleRequest and its helpers: (r1) on every path, the number of send calls is exactly one when the tag was started (carrying the tag value returned by recv and the message returned by cs.handle) or when recv reported a protocol error (carrying newErr(err)), and exactly zero on the connection-error, shutdown and duplicate-tag paths — counted by a min/max call-count dataflow, so a send inside a loop or on two branches of one path is seen; (r2) send on a connection is called only from handleRequest and Client.sendRecv, handler.handle only from connState.handle; (r3) every send site holds the connection's sendMu and send() hands header, fixed part and payload to a single vectored write; (r4) recvMu is not held (may-analysis) when cs.handle runs, and the spawn of a further receiver happens under the receive token, preceded by pendingWg.Add, conditioned on recvIdle == 0; (r5) ClearTag follows cs.handle and precedes the send, has no other caller, and cs.handle always yields a message because its deferred function recovers and substitutes EFAULT; (r6) no call that may reach an opaque backend method is made while fidMu, tagMu, sendMu or recvMu may be held (interprocedural may-held sets); (r7) a Tflush naming its own tag cannot wait for itself (shared with C14.r3). (r9) framing survives a rejected frame: every non-connection-error exit of recv has consumed exactly the frame's body (the rule of C02.r3), so the requests after an undecodable frame are still answered and no reply is made up from leftover bytes.",
+		explanation: "All clauses are facts about the shape of connState.handleRequest and its helpers: (r1) on every path, the number of send calls is exactly one when the tag was started (carrying the tag value returned by recv and the message returned by cs.handle) or when recv reported a protocol error (carrying newErr(err)), and exactly zero on the connection-error, shutdown and duplicate-tag paths — counted by a min/max call-count dataflow, so a send inside a loop or on two branches of one path is seen; (r2) send on a connection is called only from handleRequest and Client.sendRecv, handler.handle only from connState.handle; (r3) every send site holds the connection's sendMu and send() hands header, fixed part and payload to a single vectored write; (r4) recvMu is not held (may-analysis) when cs.handle runs, and the spawn of a further receiver happens under the receive token, preceded by pendingWg.Add, conditioned on recvIdle == 0; (r5) ClearTag follows cs.handle and precedes the send, has no other caller, and cs.handle always yields a message because its deferred function recovers and substitutes EFAULT; (r6) no call that may reach an opaque backend method is made while fidMu, tagMu, sendMu or recvMu may be held (interprocedural may-held sets); (r7) a Tflush naming its own tag cannot wait for itself (shared with C14.r3). (r9) framing survives a rejected frame: every non-connection-error exit of recv has consumed exactly the frame's body (the rule of C02.r3), so the requests after an undecodable frame are still answered and no reply is made up from leftover bytes. (r10) stop waits for pendingWg before closing either transport, so replies of in-flight requests are still written (the rule of C05.r5); (r6, continued) lock regions that reach the backend are the documented ones (the pairing rule of C16.r8).",
 		assumptions: []string{"fairness and actual progress under a scheduler are not decided; 'delays only what the contract orders' is decided in the necessary-condition form r4+r6 (no extra serialisation point exists)"},
 	})
 	register(&propInfo{
@@ -423,6 +423,15 @@ func checkC06(r *Run) {
 	// follows an undecodable one is still read from its own first byte, so it gets its reply
 	// and no reply is produced for bytes nobody sent as a request ---
 	r.borrow(checkC02, map[string]string{"r3": "r9"})
+
+	// --- r10: replies of requests still in flight at disconnect are written: stop waits for
+	// pendingWg before it closes either transport (C05.r5; Handle is called with one
+	// connection for both directions) ---
+	r.borrow(checkC05, map[string]string{"r5": "r10"})
+	// --- r6 (continued): no lock of a reference is held across a backend call beyond the
+	// path-tree locks of the File contract: lock regions that reach the backend release by
+	// defer at the end of the region that took them (C16.r8) ---
+	r.borrow(checkC16, map[string]string{"r8": "r6"})
 }
 
 func exitLabel(r *Run, ex *ExitRec) string {
@@ -693,6 +702,44 @@ func checkC14(r *Run) {
 		}
 		r.check(okEarly, "r2", "WaitTag returns at once for an idle tag", wt.Decl.Pos(), "!ok → return", "WaitTag has no immediate return for a tag that is not in flight")
 	}
+	// the tag table is only ever changed entry by entry, by StartTag and ClearTag: replacing
+	// the map (or storing/deleting elsewhere) would make a request that is still executing
+	// look idle to a Tflush
+	nTagW := 0
+	for _, fa := range m.fields() {
+		if fa.Key != "p9.connState.tags" {
+			continue
+		}
+		// the field itself assigned
+		if fa.Write {
+			nTagW++
+			r.fail("r2", fa.Root.Key+": replaces the tag table", fa.Sel.Pos(), "cs.tags is assigned in %s: the tags of requests that are still executing are forgotten, a Tflush naming one of them is answered at once", fa.Root.Key)
+			continue
+		}
+		// an element stored or deleted
+		par := r.L.parent(fa.Sel)
+		changed := false
+		if ix, ok := par.(*ast.IndexExpr); ok && ix.X == ast.Expr(fa.Sel) {
+			if as, ok := r.L.parent(ix).(*ast.AssignStmt); ok {
+				for _, lhs := range as.Lhs {
+					if lhs == ast.Expr(ix) {
+						changed = true
+					}
+				}
+			}
+		}
+		if c, ok := par.(*ast.CallExpr); ok {
+			if id, ok := c.Fun.(*ast.Ident); ok && id.Name == "delete" && len(c.Args) == 2 && c.Args[0] == ast.Expr(fa.Sel) {
+				changed = true
+			}
+		}
+		if changed {
+			nTagW++
+			okW := fa.Root.Key == "p9.connState.StartTag" || fa.Root.Key == "p9.connState.ClearTag"
+			r.check(okW, "r2", fa.Root.Key+": changes an entry of the tag table", fa.Sel.Pos(), "only StartTag registers and only ClearTag removes", "the tag table is changed outside StartTag/ClearTag")
+		}
+	}
+	r.floor("r2", "changes of the tag table", nTagW, 2)
 	// close(ch) only in ClearTag
 	for _, fi := range r.L.funcsOfPkg("p9") {
 		if fi.Decl.Body == nil || isClientSide(fi) {
